@@ -37,6 +37,16 @@ _DO_PHOT_VAR = [
      'the data are summed over the selected good pixels'),
 ]
 
+_ORIENT = 'orient_radians = 0.5 * np.arctan2(2.0 * covar[:, 0, 1], covar[:, 0, 0] - covar[:, 1, 1])'
+_COVAR = [(cls_, kind_, text_, why_) for cls_ in (CAT, AS) for kind_, text_, why_ in (
+    ('stmt', 'idx = np.where(covar_det < delta2)[0]', 'only the covariance matrices that are still (near-)singular are regularised'),
+    ('stmt', 'covar[idx, 0, 0] += delta', 'the regularisation touches the selected sources only'),
+    ('stmt', 'covar[idx, 1, 1] += delta', 'the regularisation touches the selected sources only'),
+    ('test', 'idx.size > 0', 'the regularisation loop runs while a selected matrix is still (near-)singular'))]
+_SHAPE_TWINS = [(f'{CAT}.orientation', 'stmt', _ORIENT, 'orientation keeps the quadrant (arctan2 of the two covariance terms)'),
+                (f'{AS}.orientation', 'stmt', _ORIENT, 'orientation keeps the quadrant (arctan2 of the two covariance terms)')] + \
+    [(f'{c_}._covariance', k_, t_, w_) for c_, k_, t_, w_ in _COVAR]
+
 EXTRA_SPECS = {
     'C04': [
         (f'{SEG}.detect.detect_threshold', 'guard', 'data = np.ma.MaskedArray(data, mask) ||| background is None; error is None; mask is None',
@@ -51,10 +61,10 @@ EXTRA_SPECS = {
          'detection uses the first (detection) element of npixels'),
     ],
     'C05': _SEG_LABELS,
-    'C07': _GET_LABELS + _LOCALBKG + [
+    'C07': _SHAPE_TWINS + _GET_LABELS + _LOCALBKG + [
         (f'{CAT}.get_labels', 'guard', 'indices = sorter[np.searchsorted(self.labels, labels, sorter=sorter)] ||| ',
          'the sorted lookup is used for every catalog order (no shortcut for catalogs that merely look ascending)')],
-    'C08': _GET_LABELS + [
+    'C08': _SHAPE_TWINS + _GET_LABELS + [
         (f'{CAT}.get_labels', 'guard', 'indices = sorter[np.searchsorted(self.labels, labels, sorter=sorter)] ||| ',
          'the sorted lookup is used for every catalog order (no shortcut for catalogs that merely look ascending)'),
         (f'{AS}.isscalar', 'ret', 'self._pixel_aperture.isscalar', 'scalar-ness is that of the (converted, cached) pixel aperture'),
@@ -85,7 +95,7 @@ EXTRA_SPECS = {
         ('photutils.utils.interpolation.ShepardIDWInterpolator.__call__', 'default', 'dtype=float',
          'interpolated values are floating point whatever the dtype of the known values'),
     ],
-    'C16': [
+    'C16': _SHAPE_TWINS + [
         (f'{AS}.sum_aper_area', 'nret', '1', 'one definition of the area for every configuration (no shortcut that skips the data/non-finite mask)'),
         (f'{AS}.sum_aper_area', 'stmt', 'areas = np.array([np.sum(weight.filled(0.0)) for weight in self._weight_cutout])',
          'area = sum of the unmasked sum-method weights'),
